@@ -47,6 +47,7 @@ RULE = ("random hierarchies of 2-5 classes (root decorated; children dataclass o
         "construction log. Non-trivial: a query is asked for a class that has a subclass instance or an inferred "
         "instance in the log and at least one logged instance that must NOT be returned (other branch / cleared). "
         "distinct by structural hash.")
+RULE += " Size cases (every tier): 130-220 instances of one class constructed in one go, then queried, also with a term T(n=v) whose plain value is equal to the stored one without being the same object."
 LEVEL_TEXT = ("Offline history checker against a reference model (the list of concrete constructions): after every history "
               "step that queries, the no-domain variable must range over exactly the logged live instances of the class "
               "and its subclasses, each once; constructor-side-effect counters show symbolic construction ran no user code.")
